@@ -24,7 +24,7 @@ BAD = ['[', ']', 'a.b.c', '(', 'a@b@c', '"', 'wl_surface@3', 'a!b!c', '(()', 'x 
 
 def plan(tier, seed):
     if tier == 'quick':
-        return [{'seqs': 40, 'n_each': [40, 70]} for _ in range(16)]
+        return [{'seqs': 90, 'n_each': [40, 70]} for _ in range(16)]
     return [{'seqs': 900, 'n_each': [60, 140]} for _ in range(64)]
 
 
